@@ -1,9 +1,9 @@
 CONSTANTS
-  Angles <- AngT
+  Angles <- AngQ
   SampleSets <- Samples
   MaxOps = 3
-  SplitKeepsOrientation = TRUE
-  Export = TRUE
+  SplitKeepsOrientation = FALSE
+  Export = FALSE
 INIT Init
 NEXT Next
 CHECK_DEADLOCK FALSE
